@@ -150,10 +150,10 @@ func checkC09(c *Ctx) {
 				for f := range fs {
 					if strings.HasPrefix(f, "F:has("+db+".Statement.Clauses[") && !strings.Contains(f, `["WHERE"]`) {
 						markerAbsent = true
-						markerKeys[f[len("F:has("+db+".Statement.Clauses[") : len(f)-2]] = true
+						markerKeys[f[len("F:has("+db+".Statement.Clauses["):len(f)-2]] = true
 					}
 					if strings.HasPrefix(f, "T:has("+db+".Statement.Clauses[") && !strings.Contains(f, `["WHERE"]`) {
-						markerKeys[f[len("T:has("+db+".Statement.Clauses[") : len(f)-2]] = true
+						markerKeys[f[len("T:has("+db+".Statement.Clauses["):len(f)-2]] = true
 					}
 					if strings.HasPrefix(f, "T:len(") && strings.HasSuffix(f, ".Exprs) > 1") {
 						moreThanOne = true
